@@ -101,6 +101,10 @@ func runC02(r *Run) {
 	// R9: the configured forbidden-extension list reaches the filter intact
 	r.Rule("C02.R9")
 	c02ParseOIDs(r)
+
+	// R10: no clock sample is stored into the long-lived state the temporal filters read (rules_t7c02clock.go)
+	r.Rule("C02.R10")
+	noStaleClock(r, []clkFilter{{"trillian/ctfe.ValidateChain", 3}})
 }
 
 func c02ValidateChain(r *Run, fn *ssa.Function) {
